@@ -58,7 +58,12 @@ func (r *vReporter) mismatch(kind string, detail map[string]any) {
 	r.out.WriteByte('\n')
 }
 
-func (r *vReporter) count(k string) { r.stats[k]++ }
+// case 0 is the driver's negative control and is not counted
+func (r *vReporter) count(k string) {
+	if r.idx > 0 {
+		r.stats[k]++
+	}
+}
 
 // vReplay feeds every line of VERIF_CASES to fn; a panic of the code under test is a mismatch of kind "panic"
 func vReplay(t *testing.T, fn func(r *vReporter, line []byte)) {
